@@ -3,10 +3,13 @@ CONSTANTS
   CommitSeqBeforeWrite = FALSE
   FreezeBeforeMetaFlush = FALSE
   ExpireOnConsumed = FALSE
-  IgnoreOverGap = FALSE
+  IgnoreOverGap = TRUE
   Writable = FALSE
-SPECIFICATION TraceSpec
-INVARIANTS SeriesIndexed AckNotAhead NoLoss
-CONSTRAINT HighWater
-POSTCONDITION TraceAccepted
+  AtomicRound = FALSE
+  Name = {"m1", "bad"}
+  MaxEntries = 3
+  MaxCrash = 2
+  MaxFlush = 3
+SPECIFICATION MCSpec
+INVARIANTS NoLoss
 CHECK_DEADLOCK FALSE
